@@ -543,7 +543,7 @@ func init() {
 			mcap := ruleMakeCapAny(c, filesOf(c, "graph.NewDense", "graph.NewSparse", "T:graph.DenseGraph", "T:graph.SparseGraph"))
 			rd := ruleRowDeg(c, "graph", "SparseGraph", "Neighbourhoods", "DegreeSequence")
 			ma := ruleMakeAppend(c, filesOf(c, "graph.NewDense", "graph.NewSparse", "T:graph.DenseGraph", "T:graph.SparseGraph"))
-			return []*RuleResult{cp, fr, tri, ruleRows(c), ruleEdgeByte(c, "graph"), ruleRegrow(c, "graph"), mcap, rd, ma}
+			return []*RuleResult{cp, fr, tri, ruleRows(c), ruleEdgeByte(c, "graph"), ruleRegrow(c, "graph"), mcap, rd, ma, irreflexiveEditable(c)}
 		},
 		controls: func(ctl *Ctx) []*RuleResult {
 			cp := ruleCouple(ctl, map[string]bool{"ctl/graph": true})
@@ -554,7 +554,7 @@ func init() {
 			freshResult(ctl, fr, ctl.Fn("(*graph.DenseGraph).GoodCopy"), 0, nil, nil, "is a deep copy")
 			tri := ruleTri(ctl, func(string) bool { return true }, "TRI")
 			lit := ruleLiteral(ctl)
-			return []*RuleResult{cp, es, fr, tri, lit, ruleRows(ctl), ruleEdgeByte(ctl, "graph"), ruleRegrow(ctl, "graph"), ruleRowDeg(ctl, "rowctl", "SparseGraph", "Neighbourhoods", "DegreeSequence"), ruleMakeAppend(ctl, func(f string) bool { return filepath.Base(f) == "partctl.go" })}
+			return []*RuleResult{cp, es, fr, tri, lit, ruleRows(ctl), ruleEdgeByte(ctl, "graph"), ruleRegrow(ctl, "graph"), ruleRowDeg(ctl, "rowctl", "SparseGraph", "Neighbourhoods", "DegreeSequence"), ruleMakeAppend(ctl, func(f string) bool { return filepath.Base(f) == "partctl.go" }), ruleIrreflexive(ctl, "graph")}
 		},
 	})
 	register(&propDef{
@@ -1089,5 +1089,13 @@ func ruleRowDeg(c *Ctx, pkgRel, typ, rowField, degField string) *RuleResult {
 			}
 		}
 	}
+	return r
+}
+
+// irreflexiveEditable: IRREFLEXIVE for the two editable graph types only - C05 is about DenseGraph and
+// SparseGraph; the views and derived graphs are judged under C06.
+func irreflexiveEditable(c *Ctx) *RuleResult {
+	r := ruleIrreflexive(c, "graph", "DenseGraph", "SparseGraph")
+	r.MinInst = 2
 	return r
 }
